@@ -84,22 +84,22 @@ theorem mem_iff_idxR (cws : List R) (x : R) : x ∈ cws ↔ ∃ j, j < cws.lengt
   · rintro ⟨j, h, rfl⟩; exact ⟨j, h, (idxR_of_lt _ h).symm⟩
 
 set_option exponentiation.threshold 10000 in
-/-- the loop of `binary_search` on ANY carrier, for a list on which the test `cws[i] < r` is downward closed
+/-- the loop of `binary_search` on ANY carrier, for a list on which the test `cws[i] <= r` is downward closed
     (true of a non-decreasing list): the returned index splits the list into the entries where the test holds and
     those where it fails -/
 theorem binary_search_post_gen {α : Type} [RealLike α] (cws : List α) (r : α)
-    (hmono : ∀ i j, i ≤ j → j < cws.length → RealLike.lt (idxR cws j) r = true →
-      RealLike.lt (idxR cws i) r = true)
+    (hmono : ∀ i j, i ≤ j → j < cws.length → RealLike.le (idxR cws j) r = true →
+      RealLike.le (idxR cws i) r = true)
     (hl : FuelOK cws.length) :
     Gen.binary_search cws r ≤ cws.length ∧
-    (∀ j, j < Gen.binary_search cws r → RealLike.lt (idxR cws j) r = true) ∧
-    (∀ j, Gen.binary_search cws r ≤ j → j < cws.length → RealLike.lt (idxR cws j) r = false) := by
+    (∀ j, j < Gen.binary_search cws r → RealLike.le (idxR cws j) r = true) ∧
+    (∀ j, Gen.binary_search cws r ≤ j → j < cws.length → RealLike.le (idxR cws j) r = false) := by
   unfold Gen.binary_search
   simp -iota -proj only []
   generalize hres : whileFuel 10000 _ _ _ = res
   have key := whileFuel_halving_res
-    (fun s : Nat × Nat => s.1 ≤ s.2 ∧ s.2 ≤ cws.length ∧ (∀ j, j < s.1 → RealLike.lt (idxR cws j) r = true) ∧
-      (∀ j, s.2 ≤ j → j < cws.length → RealLike.lt (idxR cws j) r = false))
+    (fun s : Nat × Nat => s.1 ≤ s.2 ∧ s.2 ≤ cws.length ∧ (∀ j, j < s.1 → RealLike.le (idxR cws j) r = true) ∧
+      (∀ j, s.2 ≤ j → j < cws.length → RealLike.le (idxR cws j) r = false))
     (fun s => s.2 - s.1) _ _ _ _ _ hres ?_ ?_ ?_ hl
   · clear hres hl
     obtain ⟨l, u⟩ := res
@@ -111,7 +111,7 @@ theorem binary_search_post_gen {α : Type} [RealLike α] (cws : List α) (r : α
     rintro ⟨l, u⟩ ⟨h1, h2, h3, h4⟩ hc
     simp only [decide_eq_true_eq] at hc h1 h2 h3 h4 ⊢
     have hmid : (l + u) / 2 < cws.length := by omega
-    by_cases hlt : RealLike.lt (idxR cws ((l + u) / 2)) r = true
+    by_cases hlt : RealLike.le (idxR cws ((l + u) / 2)) r = true
     · simp only [if_pos hlt]
       refine ⟨⟨by omega, h2, ?_, h4⟩, by omega⟩
       intro j hj
@@ -130,13 +130,13 @@ theorem binary_search_post_gen {α : Type} [RealLike α] (cws : List α) (r : α
 /-- the partition point is unique: two lists of the same length whose tests agree index by index get the same answer -/
 theorem binary_search_congr {α β : Type} [RealLike α] [RealLike β] (c1 : List α) (r1 : α) (c2 : List β) (r2 : β)
     (hlen : c1.length = c2.length)
-    (hp : ∀ j, j < c1.length → RealLike.lt (idxR c1 j) r1 = RealLike.lt (idxR c2 j) r2)
-    (hmono : ∀ i j, i ≤ j → j < c1.length → RealLike.lt (idxR c1 j) r1 = true →
-      RealLike.lt (idxR c1 i) r1 = true)
+    (hp : ∀ j, j < c1.length → RealLike.le (idxR c1 j) r1 = RealLike.le (idxR c2 j) r2)
+    (hmono : ∀ i j, i ≤ j → j < c1.length → RealLike.le (idxR c1 j) r1 = true →
+      RealLike.le (idxR c1 i) r1 = true)
     (hl : FuelOK c1.length) :
     Gen.binary_search c1 r1 = Gen.binary_search c2 r2 := by
-  have hmono2 : ∀ i j, i ≤ j → j < c2.length → RealLike.lt (idxR c2 j) r2 = true →
-      RealLike.lt (idxR c2 i) r2 = true := by
+  have hmono2 : ∀ i j, i ≤ j → j < c2.length → RealLike.le (idxR c2 j) r2 = true →
+      RealLike.le (idxR c2 i) r2 = true := by
     intro i j hij hj h
     rw [← hp j (by omega)] at h
     rw [← hp i (by omega)]
@@ -156,18 +156,19 @@ theorem binary_search_congr {α β : Type} [RealLike α] [RealLike β] (c1 : Lis
     rw [← hp i2 (by omega), h1] at h2
     exact absurd h2 (by simp)
 
-/-- `binary_search` on a non-decreasing list of exact reals -/
+/-- `binary_search` on a non-decreasing list of exact reals: everything before the returned index is `≤ r`,
+    everything from it on is `> r` -/
 theorem binary_search_post (cws : List R) (r : R) (hs : SortedR cws) (hl : FuelOK cws.length) :
     Gen.binary_search cws r ≤ cws.length ∧
-    (∀ j, j < Gen.binary_search cws r → (idxR cws j).val < r.val) ∧
-    (∀ j, Gen.binary_search cws r ≤ j → j < cws.length → r.val ≤ (idxR cws j).val) := by
+    (∀ j, j < Gen.binary_search cws r → (idxR cws j).val ≤ r.val) ∧
+    (∀ j, Gen.binary_search cws r ≤ j → j < cws.length → r.val < (idxR cws j).val) := by
   obtain ⟨h1, h2, h3⟩ := binary_search_post_gen cws r (fun i j hij hj h => by
-    rw [R.lt_iff] at h ⊢
-    exact lt_of_le_of_lt (hs i j hij hj) h) hl
+    rw [R.le_iff] at h ⊢
+    exact le_trans (hs i j hij hj) h) hl
   refine ⟨h1, fun j hj => by simpa using h2 j hj, fun j hj hj2 => ?_⟩
   have := h3 j hj hj2
-  rw [R.lt_false_iff] at this
-  exact not_lt.mp this
+  rw [R.le_false_iff] at this
+  exact not_le.mp this
 
 /-! ### prefix sums -/
 
@@ -578,10 +579,10 @@ theorem idxR_map_lt {α β : Type} [RealLike α] (L : List β) (g : β → α) {
     idxR (L.map g) j = g (L[j]) := by
   simp [idxR, hj]
 
-/-- two images of the same real list under maps that agree on the tests `<` / `>` against the respective thresholds
+/-- two images of the same real list under maps that agree on the tests `<=` / `>` against the respective thresholds
     get the same `catflip` answer (one list over `R`, non-decreasing; the other over `X`) -/
 theorem catflip_map_congr (L : List ℝ) (g1 : ℝ → X) (r1 : X) (r2 : R)
-    (hlt : ∀ c, RealLike.lt (R.mk c) r2 = RealLike.lt (g1 c) r1)
+    (hle : ∀ c, RealLike.le (R.mk c) r2 = RealLike.le (g1 c) r1)
     (hgt : ∀ c, RealLike.gt (R.mk c) r2 = RealLike.gt (g1 c) r1)
     (hs : SortedR (L.map R.mk)) (hl : FuelOK L.length) :
     Gen.catflip (L.map g1) r1 = Gen.catflip (L.map R.mk) r2 := by
@@ -593,10 +594,10 @@ theorem catflip_map_congr (L : List ℝ) (g1 : ℝ → X) (r1 : X) (r2 : R)
       apply binary_search_congr _ _ _ _ (by simp)
       · intro j hj
         have hj' : j < L.length := by simpa using hj
-        rw [idxR_map_lt L R.mk hj', idxR_map_lt L g1 hj', hlt]
+        rw [idxR_map_lt L R.mk hj', idxR_map_lt L g1 hj', hle]
       · intro i j hij hj h
-        rw [R.lt_iff] at h ⊢
-        exact lt_of_le_of_lt (hs i j hij hj) h
+        rw [R.le_iff] at h ⊢
+        exact le_trans (hs i j hij hj) h
       · simpa using hl
     simp only [List.length_map, e]
   · unfold Gen.catflip_standard
